@@ -202,6 +202,8 @@ func alphabet() []letter {
 		onStream("D_CLOSED", closed, func(id uint32, x *env) []byte { return h2wire.Data(id, dataByte(x), true, -1) }),
 		onStream("D_IDLE", idle, func(id uint32, x *env) []byte { return h2wire.Data(id, dataByte(x), false, -1) }),
 		always("D_ZERO", func(x *env) []byte { return h2wire.Data(0, dataByte(x), false, -1) }),
+		// an even id is a server-initiated stream; the server never pushes, so it is idle however many client streams exist
+		always("D_EVEN", func(x *env) []byte { return h2wire.Data(2, dataByte(x), false, -1) }),
 		onStream("D_OPEN_PADBAD", open, func(id uint32, x *env) []byte {
 			return h2wire.Append(nil, h2wire.TData, h2wire.FPadded, id, []byte{5, 'x', 0})
 		}),
@@ -211,6 +213,7 @@ func alphabet() []letter {
 		onStream("R_CLOSED", closed, func(id uint32, x *env) []byte { return h2wire.RST(id, 8) }),
 		onStream("R_IDLE", idle, func(id uint32, x *env) []byte { return h2wire.RST(id, 8) }),
 		always("R_ZERO", func(x *env) []byte { return h2wire.RST(0, 8) }),
+		always("R_EVEN", func(x *env) []byte { return h2wire.RST(2, 8) }),
 		onStream("R_LEN3", openOr1, func(id uint32, x *env) []byte { return h2wire.Append(nil, h2wire.TRSTStream, 0, id, []byte{0, 0, 8}) }),
 		// -- WINDOW_UPDATE
 		always("W_CONN", func(x *env) []byte { return h2wire.WindowUpdate(0, 1) }),
@@ -218,6 +221,7 @@ func alphabet() []letter {
 		onStream("W_HALFCLOSED", hcr, func(id uint32, x *env) []byte { return h2wire.WindowUpdate(id, 1) }),
 		onStream("W_CLOSED", closed, func(id uint32, x *env) []byte { return h2wire.WindowUpdate(id, 1) }),
 		onStream("W_IDLE", idle, func(id uint32, x *env) []byte { return h2wire.WindowUpdate(id, 1) }),
+		always("W_EVEN", func(x *env) []byte { return h2wire.WindowUpdate(2, 1) }),
 		always("W_CONN_ZERO", func(x *env) []byte { return h2wire.WindowUpdate(0, 0) }),
 		onStream("W_STREAM_ZERO", openOr1, func(id uint32, x *env) []byte { return h2wire.WindowUpdate(id, 0) }),
 		always("W_CONN_OVERFLOW", func(x *env) []byte { return h2wire.WindowUpdate(0, 1<<31-1) }),
